@@ -314,6 +314,18 @@ def unpack_unit(ctx):
     rel = ctx.choose(4, "iterable")  # shorter / equal / longer / infinite
     n = [max(length - 1, 0), length, length + 2, None][rel]
     it = LazyIter(n)
+    # the same contract for SIZED inputs of every kind (a fast path through len() must not change what is yielded): the items in iteration order, as a tuple
+    if n is not None:
+        items = [("item", i) for i in range(n)]
+        for mk, what in ((list, "list"), (tuple, "tuple"), (lambda xs: {x: "v" for x in reversed(xs)}, "dict(keys,insertion-order-differs-from-sorted)"),
+                         (lambda xs: dict.fromkeys(reversed(xs)).keys(), "dict-view"), (lambda xs: iter(xs), "iterator")):
+            src = mk(items)
+            want = tuple(iter(mk(items)))
+            k2, v2 = _catch(ctx, lambda: f(src, length))
+            if n == length:
+                ctx.check("sized-input:exact-length=>tuple-of-exactly-the-items-in-iteration-order", bool(k2 == "ret" and type(v2) is tuple and v2 == want), info=f"{what}: {v2!r} vs {want!r}")
+            else:
+                ctx.check("sized-input:wrong-length=>ValueError", bool(k2 == "raise" and isinstance(v2, ValueError)), info=what)
     kind, val = _catch(ctx, lambda: f(it, length))
     exact = (n == length)
     if exact:
